@@ -136,6 +136,12 @@ def rule_newlines(ck: Check, repo: Repo) -> None:
     if ast.unparse(kwarg(rd, "newline") or ast.Constant(None)) != "''":
         r.violation(q, "file is not read with newline=''", "universal-newline translation would hide CRLF / CR endings",
                     repo.loc(rd))
+    rd_err = next((ast.unparse(kw.value) for kw in rd.keywords if kw.arg == "errors"), None)
+    if rd_err is not None and rd_err != "'strict'":
+        r.violation(q, f"the file is read with errors={rd_err}",
+                    "a byte that is not valid UTF-8 (a Latin-1 é in a comment) is replaced while reading and the replacement is written"
+                    " back: lines outside the header change although annotate reports success (strict reading refuses such a file"
+                    " and leaves it untouched)", repo.loc(rd))
     if ast.unparse(rd.args[0]) != ast.unparse(wr.args[0]):
         r.violation(q, "the file written is not the file read", f"{ast.unparse(rd.args[0])} vs {ast.unparse(wr.args[0])}", repo.loc(wr))
     for c in (rd, wr):
